@@ -308,22 +308,29 @@ void c19_keyed(Table &t, size_t k, bool is_insert, bool elem_present_after)
         if (is_insert) t.phys[k] = fn_eval(t.tgt_f, k, t.tgt_n);
         return;
     }
-    // pending: lookup under the current geometry, lookup under the pending one, then relocations
-    CHECK(g_log.size() >= 2 && is(g_log[0], t.cur_f, k, t.cur_n) && is(g_log[1], t.tgt_f, k, t.tgt_n), "C19.log.pattern",
-          "%s keyed op on key %zu while a rehash is pending: expected the lookups (k,%zu,%s) and (k,%zu,%s) first, log has %zu calls",
-          t.tag, k, t.cur_n, FN[t.cur_f], t.tgt_n, FN[t.tgt_f], g_log.size());
+    // pending: every hash call of this operation must be a lookup of k under the current or the requested
+    // geometry, or a relocation of a live element into the requested geometry (order and repetition are
+    // not prescribed by the property, so neither is demanded here)
     std::set<size_t> src;
-    for (size_t i = 2; i < g_log.size(); i++) {
+    size_t tgt_k_calls = 0;
+    for (size_t i = 0; i < g_log.size(); i++) {
         const LogEnt &e = g_log[i];
-        CHECK(e.f == t.tgt_f && e.m == t.tgt_n, "C19.log.pattern", "%s relocation call with geometry (%zu,%s), pending is (%zu,%s)", t.tag, e.m,
-              FN[e.f], t.tgt_n, FN[t.tgt_f]);
+        if (is(e, t.cur_f, k, t.cur_n) && !(t.cur_f == t.tgt_f && t.cur_n == t.tgt_n)) continue;   // lookup, current geometry
+        CHECK(e.f == t.tgt_f && e.m == t.tgt_n, "C19.log.pattern",
+              "%s keyed op on key %zu while a rehash is pending made a hash call (%zu, %zu, %s) that is neither a lookup of the key nor a relocation into the requested geometry (%zu, %s)",
+              t.tag, k, e.k, e.m, FN[e.f], t.tgt_n, FN[t.tgt_f]);
+        if (e.k == k) { tgt_k_calls++; continue; }      // lookup under the requested geometry (or k's own relocation, below)
         auto it = t.phys.find(e.k);
         CHECK(it != t.phys.end(), "C19.log.pattern", "%s relocation call for key %zu which is not in the table", t.tag, e.k);
         src.insert(it->second);
     }
+    if (tgt_k_calls >= 2 && t.phys.count(k)) src.insert(t.phys[k]);     // k's own element was relocated as well
     CHECK(src.size() <= 3, "C19.relocate.three", "%s one keyed op relocated the contents of %zu buckets (at most 3 allowed)", t.tag, src.size());
     if (src.size() == 3) CNT("class.c19.relocated3");
-    for (size_t i = 2; i < g_log.size(); i++) t.phys[g_log[i].k] = fn_eval(t.tgt_f, g_log[i].k, t.tgt_n);
+    for (size_t i = 0; i < g_log.size(); i++) {
+        const LogEnt &e = g_log[i];
+        if (e.f == t.tgt_f && e.m == t.tgt_n && t.phys.count(e.k) && (e.k != k || tgt_k_calls >= 2)) t.phys[e.k] = fn_eval(t.tgt_f, e.k, t.tgt_n);
+    }
     if (is_insert) t.phys[k] = fn_eval(t.tgt_f, k, t.tgt_n);
     CNT("class.c19.keyed_while_pending");
 }
